@@ -19,6 +19,13 @@ func jsonSafeChecks(rc *RunCtx, o *Outcome) {
 	for d := range dims {
 		dims[d] = 1 + w.Choose(4)
 	}
+	emptyAxis := -1
+	if w.Choose(8) == 7 {
+		// an array with a zero extent (the outputs of a run over zero timesteps, the states of a
+		// model without any): the nesting must still mirror the dimensions, with empty arrays
+		emptyAxis = w.Choose(rank)
+		dims[emptyAxis] = 0
+	}
 	n := product(dims)
 	vals := make([]float64, n)
 	for i := range vals {
@@ -41,6 +48,10 @@ func jsonSafeChecks(rc *RunCtx, o *Outcome) {
 	shape := dims
 	how := fmt.Sprintf("root%v", dims)
 	depth := w.Choose(3)
+	if emptyAxis >= 0 {
+		depth = 0
+		o.probe("jsonsafe_array_with_zero_extent")
+	}
 	for k := 0; k < depth; k++ {
 		loc, sub, step := make([]int, rank), make([]int, rank), make([]int, rank)
 		for d := 0; d < rank; d++ {
@@ -62,6 +73,11 @@ func jsonSafeChecks(rc *RunCtx, o *Outcome) {
 		how += fmt.Sprintf(".Slice(%v,%v,%v)", loc, sub, step)
 	}
 	for shift := 0; shift < rank; shift++ {
+		if emptyAxis >= 0 && shift > emptyAxis {
+			// the dimensions before the shift dimension are fixed at index 0, which an empty
+			// dimension does not have
+			continue
+		}
 		var escaped interface{}
 		var got []interface{}
 		func() {
@@ -107,6 +123,9 @@ func compareNested(got []interface{}, vals []float64, offs, shape, idx []int, d 
 		sub, ok := got[i].([]interface{})
 		if !ok {
 			return fmt.Errorf("element %v at level %d is %T, expected a nested array (nesting must follow the dimensions)", idx[:d+1], d, got[i])
+		}
+		if sub == nil {
+			return fmt.Errorf("element %v at level %d is a nil slice, which encodes as null instead of an array (nesting must follow the dimensions)", idx[:d+1], d)
 		}
 		if e := compareNested(sub, vals, offs, shape, idx, d+1); e != nil {
 			return e
